@@ -5,7 +5,7 @@ use dlt_core::parse::{dlt_message, DltParseError, ParsedMessage};
 use dlt_core::read::{read_message, DltMessageReader};
 use std::io::{self, Read};
 
-pub const K: usize = 3;
+pub const K: usize = 2;
 
 /// Byte source with a symbolic schedule: step i returns Interrupted if
 /// sched[i] == 0, else min(sched[i], available, buf.len()) bytes (>= 1 while
@@ -179,6 +179,43 @@ fn c07_read_message_equals_slice_parse() {
             std::mem::forget(b);
         }
         _ => assert!(false, "reader and slice parser disagree on the outcome"),
+    }
+    std::mem::forget(reader);
+}
+
+/// The public constructor: `DltMessageReader::new` sizes its scratch buffer for a
+/// storage header plus the largest declarable message, so NO 16-bit length field
+/// can make the reader index past it (declared length fully symbolic, both
+/// storage modes; the stream ends right after the header, so the outcome must be
+/// an error or end-of-stream, never a panic and never a slice).
+#[kani::proof]
+#[kani::unwind(24)]
+#[kani::stub(std::fmt::format, crate::models::fmt_format_stub)]
+fn c07_default_capacity_any_declared_length() {
+    let l: [u8; 2] = kani::any();
+    let storage: bool = kani::any();
+    let mut data = [0u8; 20];
+    data[0] = 0x44;
+    data[1] = 0x4C;
+    data[2] = 0x54;
+    data[3] = 0x01;
+    let (n, off) = if storage { (20usize, 16usize) } else { (4usize, 0usize) };
+    data[off] = 0x20;
+    data[off + 2] = l[0];
+    data[off + 3] = l[1];
+    let src = Src::<20> { data, len: n, pos: 0, sched: [255; K], step: 0, reads: 0 };
+    let mut reader = DltMessageReader::new(src, storage);
+    let declared = u16::from_be_bytes(l) as usize;
+    match reader.next_message_slice() {
+        Ok(s) => {
+            // only a header-only message (declared == 4) is completely in the stream
+            assert!(s.is_empty() || (declared == 4 && s.len() == off + 4), "a slice although the stream ends before the declared length");
+            kani::cover!(!s.is_empty(), "header-only message delivered");
+        }
+        Err(_) => {
+            kani::cover!(declared == 0xFFFF, "largest declarable length -> error, no panic");
+            kani::cover!(declared < 4, "length below the header -> error, no panic");
+        }
     }
     std::mem::forget(reader);
 }
